@@ -102,7 +102,7 @@ func checkC09(c *Check) {
 
 	pc := newProv(p)
 	sites := p.statusSites()
-	c.Rule("K1", "every SetStatus key (outside forwarding collectors) originates only from elements of a recipient list filled with the unmodified AddRcpt/Rcpt parameter", 8)
+	c.Rule("K1", "every SetStatus key (outside forwarding collectors) originates only from elements of a recipient list filled with the unmodified AddRcpt/Rcpt parameter", 4)
 	c.Rule("K1f", "every store to such a recipient list appends the unmodified recipient parameter (or resets the list)", 3)
 	ord := map[string]int{}
 	checkedFields := map[*types.Var]bool{}
@@ -485,6 +485,7 @@ func checkC09(c *Check) {
 	c09AcceptedListAfterAccept(c, "K12")
 	c09OneKeyForConnTable(c, "K13")
 	c09NoSpellingDependentSkip(c, "K14")
+	c09AcceptedListWhole(c, "K15")
 
 	// ---- K5: a failure of one atomic target is reported for exactly that target's recipients
 	c.Rule("K5", "pipeline per-recipient body path: when an atomic target's Body fails, the error is reported for that target's complete recipient list and for no other target's recipients", 1)
